@@ -35,10 +35,14 @@ def run(tier, seed):
     configs = [(k, "cose", 0x05) for k in kinds] + [("ES256-P256", "raw-uncompressed-point", 0x01), ("ES256-P256", "raw-uncompressed-point", 0x05), ("ES256-P256", "cose", 0x01)]
     # other encodings of the stored key: IF the implementation accepts an assertion under one of them at all, every bit must still count
     configs += [("ES256-P256", "spki-der", 0x05), ("RS256", "spki-der", 0x05), ("EdDSA", "spki-der", 0x05), ("ES256-P256", "spki-pem", 0x05), ("ES256-P256", "compressed-point", 0x05)]
-    for kind0, stored_form, fl in configs:
-        kind = kind0 if stored_form == "cose" and fl == 0x05 else f"{kind0}/{stored_form}/flags={fl:#04x}"
+    configs = [c + (b"",) for c in configs]
+    # client data that starts with a byte order mark / white space (hashed and signed as such): every bit of those bytes counts as well
+    configs += [("ES256-P256", "cose", 0x05, b"\xef\xbb\xbf"), ("RS256", "cose", 0x05, b"\xef\xbb\xbf"), ("ES256-P256", "cose", 0x05, b" \n"), ("EdDSA", "cose", 0x01, b"\xef\xbb\xbf")]
+    for kind0, stored_form, fl, cdp in configs:
+        kind = kind0 if stored_form == "cose" and fl == 0x05 and not cdp else f"{kind0}/{stored_form}/flags={fl:#04x}" + (f"/client-data-prefix={cdp.hex()}" if cdp else "")
         s = authcat.Scn(kind0)
         s.flags = fl
+        s.cd_prefix = cdp
         pol, a = s.build()
         if stored_form == "raw-uncompressed-point":
             n = a.cred.pk.public_numbers()
@@ -166,7 +170,7 @@ def run(tier, seed):
                 B.run_case(regrun.policy_of(pd), reg, "dict", "reject", f"binding-value/{nm}/{fmt}/{kind}", scn=s)
     chk.exhaustive = True
     A.close(); B.close()
-    fw.env_invariance(chk, "auth")          # the same seeded cases under -O / -OO, warnings-as-errors, other TZ / locale, a private CA bundle
+    fw.env_invariance(chk, "auth", "reg")          # the same seeded cases under -O / -OO, warnings-as-errors, other TZ / locale, a private CA bundle
     return fw.finish(chk, ob, br, TRUSTED,
                      ["for android-safetynet the flipped objects are the JWS signing input (header.payload text) and the DECODED signature bytes; the base64url text of the signature part is "
                       "decoded leniently by design (unused trailing bits), which is outside the signed material",
